@@ -561,6 +561,87 @@ def cancel_scenarios(seed, kinds=None, quick=True):
     return out
 
 
+def c07_scenarios(n_seeds, seed):
+    """Bursts larger than a mailbox combined with publish and delete, all in flight at once."""
+    out = []
+    for k in range(n_seeds):
+        sd = seed * 1000 + k
+        cap = (16, 1, 2, 16)[k % 4]
+        burst = (cap + 1, cap + 2, 2 * cap + 3, 40)[(k // 4) % 4]
+        pre = [call(1, op="CreateTopic", name=T1), call(1, op="CreateSub", name=S1, topic=T1, ack=10),
+               call(1, op="CreateSub", name=S2, topic=T1, ack=10),
+               call(1, op="Publish", topic=T1, msgs=[{"p": "a%d" % k}, {"p": "b%d" % k}])]
+        kinds = [dict(op="Pull", sub=S1, max=1, ri=True), dict(op="Ack", sub=S1, acks=[{"d": 1}]),
+                 dict(op="ModAck", sub=S1, acks=[{"d": 1}], secs=0), dict(op="GetSub", name=S1)]
+        # A: delete the subscription with a burst queued behind it, and publish.
+        steps = list(pre)
+        order = k % 3
+        if order == 0:
+            steps.append(start("d", 2, op="DeleteSub", name=S1))
+        for j in range(burst):
+            steps.append(start("q%d" % j, 10 + j, **kinds[(j + k) % len(kinds)]))
+            if order == 1 and j == burst // 2:
+                steps.append(start("d", 2, op="DeleteSub", name=S1))
+        if order == 2:
+            steps.append(start("d", 2, op="DeleteSub", name=S1))
+        steps.append(start("pub", 3, op="Publish", topic=T1, msgs=[{"p": "late%d" % k}]))
+        steps.append(start("pub2", 4, op="Publish", topic=T1, msgs=[{"p": "later%d" % k}]))
+        steps += [{"do": "waitall"},
+                  call(5, op="Publish", topic=T1, msgs=[{"p": "after%d" % k}]),
+                  call(5, op="ListTopicSubs", topic=T1, size=0, token=""),
+                  {"do": "drain", "c": 9}]
+        out.append(scn("c07-A-%d" % k, steps, seed=sd, cap=cap))
+        # B: the same with the topic deleted in the middle.
+        steps = list(pre)
+        for j in range(burst):
+            steps.append(start("q%d" % j, 10 + j, **kinds[(j + k) % len(kinds)]))
+        steps.append(start("pub", 3, op="Publish", topic=T1, msgs=[{"p": "late%d" % k}]))
+        steps.append(start("td", 2, op="DeleteTopic", name=T1))
+        steps.append(start("d", 6, op="DeleteSub", name=S1))
+        for j in range(burst):
+            steps.append(start("l%d" % j, 60 + j, op="ListTopicSubs", topic=T1, size=0, token=""))
+        steps += [{"do": "waitall"}, call(5, op="GetSub", name=S2), {"do": "drain", "c": 9}]
+        out.append(scn("c07-B-%d" % k, steps, seed=sd, cap=cap))
+    return out
+
+
+def c07_mc(work, quick, violations):
+    """All interleavings of a delete, a publish and CAP+1 further requests: the repaired design
+    must be free of hangs; the pinned design (delete does not drain) must show the deadlock."""
+    procs = {"d": ("delete", "s1"), "pub": ("publish", "s1"), "q1": ("pull", "s1"), "q2": ("ack", "s1"), "q3": ("nack", "s1")}
+    if not quick:
+        procs["q4"] = ("pull", "s1")
+        procs["pub2"] = ("publish", "s1")
+    total = {"generated": 0, "distinct": 0}
+    runs = []
+    for cap in ((1, 2) if quick else (1, 2, 3)):
+        r = V.actors_mc(os.path.join(work, "mc"), "c07_cap%d" % cap, procs, cap=cap, backlog=1,
+                        invariants=["TypeOK", "C07_NoHang", "C07_ActorsIdle", "C16_Attached"])
+        if r["stats"]:
+            total["generated"] += r["stats"]["generated"]
+            total["distinct"] += r["stats"]["distinct"]
+        runs.append({"cap": cap, "stats": r["stats"], "error": r["error"]})
+        if r["error"]:
+            path = V.save_replay("C07", 0, {"kind": "model", "error": r["error"], "config": r["config"], "trace": r["trace"],
+                                            "tlc_output_tail": r["out"][-5000:]})
+            violations.append(("model DeltioActors: " + r["error"], path))
+    # vacuity control: the pinned behaviour must be rejected by the same invariants
+    pinned = V.actors_mc(os.path.join(work, "mc"), "c07_pinned", procs, cap=2, backlog=1,
+                         switches={"DeleteDrainsMailbox": False}, invariants=["C07_NoHang"])
+    if not pinned["error"]:
+        raise V.ToolError("vacuity: the model with DeleteDrainsMailbox=FALSE does not show the C07 deadlock")
+    return {"stats": total, "runs": runs, "pinned_counterexample_steps": len(pinned["trace"])}
+
+
+def plan_c07(prop, tier, seed, t0):
+    n = 24 if tier == "quick" else 400
+    return scenario_check(prop, tier, seed, t0, c07_scenarios(n, seed), mc=c07_mc,
+                          explore=[("mixed", 48, 2000), ("churn", 24, 1000)])
+
+
+RELEVANT["C07"] = {"s.del0", "t.accept"}
+
+
 def plan_c12(prop, tier, seed, t0):
     n = 64 if tier == "quick" else 2000
     return scenario_check(prop, tier, seed, t0, c12_scenarios(n, seed), explore=[("churn", 48, 2000)])
@@ -571,5 +652,5 @@ RELEVANT["C12"] = {"send", "s.del1"}
 PLANS = {
     "C01": plan_c01, "C02": plan_c02, "C03": plan_c03, "C04": plan_c04, "C05": plan_c05,
     "C08": plan_c08, "C09": plan_c09, "C10": plan_c10, "C11": plan_c11, "C13": plan_c13, "C15": plan_c15,
-    "C12": plan_c12,
+    "C12": plan_c12, "C07": plan_c07,
 }
